@@ -536,14 +536,29 @@ Definition sync_remove (s : state) (k : key) : R (state * sync_state) :=
   | Some st => ROk (set_sync s (updN (sync s) k None), st)
   end.
 
-(* ClaimGuard::release_self, sync.rs:434-447: [None] = kept as Transferred *)
-Definition release_self (s : state) (k : key) : R (state * option sync_state) :=
+(* DependencyGraph::repoint_transferred_dependents (repair of the stale-edge defect): the threads
+   blocked on the transferred query [k], or on a query it owns, are pointed at the thread its
+   transfer chain resolves to *)
+Definition repoint_transferred_dependents (fuel : nat) (g : dgraph) (k : key) : R dgraph :=
+  o <- thread_id_of_transferred_query fuel g k None ;;
+  match o with
+  | Some owner_thread => update_transferred_edges fuel g k owner_thread
+  | None => ROk g
+  end.
+
+(* ClaimGuard::release_self, sync.rs:434-447: [None] = kept as Transferred; a re-claimed
+   transferred query that somebody waits for gets its waiters re-pointed (they blocked on the
+   re-claiming thread) *)
+Definition release_self (fuel : nat) (s : state) (k : key) : R (state * option sync_state) :=
   match sync s k with
   | None => RErr EKeyNotClaimed
   | Some st =>
     if ss_twice st then
-      ROk (set_sync s (updN (sync s) k
-             (Some (mkSync OTransferred (ss_waiting st) (ss_target st) false))), None)
+      let s1 := set_sync s (updN (sync s) k
+                  (Some (mkSync OTransferred (ss_waiting st) (ss_target st) false))) in
+      if ss_waiting st then
+        g <- repoint_transferred_dependents fuel (dg s1) k ;; ROk (set_dg s1 g, None)
+      else ROk (s1, None)
     else ROk (set_sync s (updN (sync s) k None), Some st)
   end.
 
@@ -597,7 +612,7 @@ Definition step (fuel : nat) (s : state) (o : op) : R (state * outcome) :=
   | OReceive t => r <- receive (dg s) t ;; ROk (set_dg s (fst r), XReceive (snd r))
   | ORemove _ k => r <- sync_remove s k ;; ROk (fst r, XRemoved (snd r))
   | OReleaseSelf _ k =>
-    r <- release_self s k ;;
+    r <- release_self fuel s k ;;
     ROk (fst r, match snd r with Some st => XRemoved st | None => XSelfKept end)
   | OMarkTarget _ k => let r := mark_as_transfer_target s k in ROk (fst r, XMarked (snd r))
   | OTransfer t k new_owner id =>
